@@ -102,7 +102,7 @@ REQUIRED = ["op:bytes-unchanged", "op:failure-reported", "op:trace-clean-on-fail
             "W:kind:KeyError", "W:kind:unser-object", "W:aux-faults", "W:natural-faults", "W:real:tta",
             "W:real:side", "W:real:hmm", "W:target:handle", "W:pre:missing", "audit:write-open-seen",
             "op:dir-refused-unchanged", "op:dir-accepted-only-region-gbk-removed", "D:accepted-own-content-only",
-            "D:refused-foreign", "D:region-gbk-removed-on-reuse", "D:path-is-file", "D:path-missing", "op:E-whole-run-fault"]
+            "D:refused-foreign", "D:refused-foreign:reuse-from-cwd:derived-name", "D:region-gbk-removed-on-reuse", "D:path-is-file", "D:path-missing", "op:E-whole-run-fault"]
 
 INJECT_MESSAGE = "vf-c20 injected conversion failure"
 QUICK_PAIRS_FOR_TWO_RECORDS = 4
@@ -925,8 +925,8 @@ D_INPUT = ["absent", "dir", "file"]
 # reuse-nested: the reused results lie in a sub-directory of the output directory (that sub-directory is then 'the
 # results being reused'; anything else in the output directory is still foreign)
 # fresh-inside: a fresh run whose sequence file lies in the output directory itself (the file is then a foreign entry)
-D_MODES = ["fresh", "reuse-inside", "reuse-elsewhere", "reuse-sibling", "reuse-nested", "fresh-inside"]
-ELSEWHERE_MODES = ("reuse-elsewhere", "reuse-sibling", "reuse-nested")
+D_MODES = ["fresh", "reuse-inside", "reuse-elsewhere", "reuse-sibling", "reuse-nested", "reuse-from-cwd", "fresh-inside"]
+ELSEWHERE_MODES = ("reuse-elsewhere", "reuse-sibling", "reuse-nested", "reuse-from-cwd")
 # nested: the log file lies in a sub-directory of the output directory that also holds other files (element logsdir)
 D_LOGCFG = ["unset", "inside", "outside", "nested"]
 REGION_PATTERN = "*.region???.gbk"
@@ -982,7 +982,8 @@ D_POOL_DIRS = {
 }
 D_STATIC = {"src/in.gbk": b"LOCUS input\n//\n", "elsewhere/prev.json": b'{"version": "elsewhere"}',
             "elsewhere/prev.region001.gbk": b"another run's region", "logs/run.log": b"outside log\n",
-            "out_old/prev.json": b'{"version": "sibling"}', "cwd/prev_old/prev.json": b'{"version": "sibling"}'}
+            "out_old/prev.json": b'{"version": "sibling"}', "cwd/prev_old/prev.json": b'{"version": "sibling"}',
+            "cwd/prev.json": b'{"version": "in the working directory"}'}
 _SANDBOX_STATE: dict = {}
 
 
@@ -1040,7 +1041,9 @@ def run_dir_case(ctx, sandbox, case, main_module, config_module):
                   "reuse-inside": os.path.join(outdir, "in.json"),
                   "reuse-elsewhere": os.path.join(sandbox, "elsewhere", "prev.json"),
                   "reuse-sibling": outdir + "_old" + os.sep + "prev.json",
-                  "reuse-nested": os.path.join(outdir, "previous", "prev.json")}[mode]
+                  "reuse-nested": os.path.join(outdir, "previous", "prev.json"),
+                  # the results lie in the working directory itself (a derived name is then ./prev beside them)
+                  "reuse-from-cwd": os.path.join(neutral, "prev.json")}[mode]
     state = case["path_state"]
     try:
         _run_dir_case(ctx, sandbox, case, main_module, config_module, neutral, outdir, input_file, state)
@@ -1165,6 +1168,7 @@ def _run_dir_case(ctx, sandbox, case, main_module, config_module, neutral, outdi
             ctx.violate("refused-run-changed-contents", dict(facts, fs_events=trace), case)
         if must_refuse:
             ctx.count("D:refused-foreign")
+            ctx.count(f"D:refused-foreign:{mode}:{case['name']}-name")
         else:
             ctx.count("D:own-content-refused")      # over-cautious, not a loss: counted, not a deviation
         return
@@ -1207,6 +1211,8 @@ def dir_cases(elements_universe, full):
                         if not full and logcfg == "outside" and "log" not in subset:
                             continue
                         if not full and mode == "reuse-sibling" and (len(subset) > 2 or logcfg != "unset"):
+                            continue
+                        if not full and mode == "reuse-from-cwd" and (len(subset) > 2 or logcfg != "unset"):
                             continue
                         if not full and mode == "fresh-inside" and (len(subset) > 2 or logcfg not in ("unset", "inside")):
                             continue    # quick tier: the sibling-path variant of reuse only next to <= 2 elements
